@@ -44,7 +44,7 @@ import (
 //	  pods  name:ord:member:phase:ready:term:rev:idOk:owner:sel;...    in lister order
 //	  names data:cc=name:hashnum,...      the names the real hash function gives (template, collision count)
 //	  faults key@occ@kind;...             key as in the log, kind conflict|notfound|exists|invalid|other|timeout
-//	obs : log=<calls in order> status=<written|-> cc=<written collision count|-> revs=<name:number:owner:sel:marker:data;...> out=ok|err|panic mut=0|1
+//	obs : log=<calls in order> status=<written|-> cc=<written collision count|-> revs=<name:number:owner:sel:marker:data;...> out=ok|err|panic mut=0|1 creates=<name@revision,...>
 func init() {
 	engines["sync"] = &Engine{Gen: genSync, Run: runSync}
 }
@@ -202,6 +202,7 @@ type syWorld struct {
 	count   map[string]int
 	faults  map[string]string
 	written *apps.StatefulSetStatus
+	creates []string // name@revision-label of every pod create issued
 	kube    *kubefake.Clientset
 	pc      *pcfake.Clientset
 	ctl     *sts.StatefulSetController
@@ -287,6 +288,11 @@ func (w *syWorld) react(a k8stesting.Action) (bool, runtime.Object, error) {
 	w.count[key]++
 	w.log = append(w.log, key)
 	kind, bad := w.faults[fmt.Sprintf("%s@%d", key, occ)]
+	if a.GetVerb() == "create" && a.GetResource().Resource == "pods" {
+		if p, ok := a.(k8stesting.CreateAction).GetObject().(*v1.Pod); ok {
+			w.creates = append(w.creates, p.Name+"@"+p.Labels[kubeapps.StatefulSetRevisionLabel])
+		}
+	}
 	w.mu.Unlock()
 	if bad {
 		return true, nil, errOfKind(kind, a, key)
@@ -572,7 +578,7 @@ func runSyncCase(c *syCase) (obs string, log []string) {
 			cc = "nil"
 		}
 	}
-	obs = fmt.Sprintf("log=%s status=%s cc=%s revs=%s out=%s mut=%s", strings.Join(w.log, ","), st, cc, w.finalRevs(c), out, b2s(mut))
+	obs = fmt.Sprintf("log=%s status=%s cc=%s revs=%s out=%s mut=%s creates=%s", strings.Join(w.log, ","), st, cc, w.finalRevs(c), out, b2s(mut), strings.Join(w.creates, ","))
 	if site != "" {
 		obs += " site=" + strings.ReplaceAll(site, " ", "_")
 	}
